@@ -4,7 +4,7 @@ import itertools
 from .. import drv_md3 as D
 from ..core import pmap
 
-KINDS = [("update", 1), ("update", 0), ("update2",), ("label", 1, 1), ("label", 0, 0), ("label_badcols", 1, 1), ("label2",)]
+KINDS = [("update", 1), ("update", 0), ("update2",), ("label", 1, 1), ("label", 0, 0), ("label_badcols", 1, 1), ("label2",), ("setref",)]
 
 
 def params(rng, small=False):
@@ -64,7 +64,7 @@ def replay_behaviour(beh, seed=0):
 
 def run(ctx):
     q, rng = ctx.quick, ctx.rng
-    ctx.model("MC_MD3", "MC_MD3%s.cfg" % ("" if q else "_deep"), require_actions=("Ref", "Upd", "UpdRefused", "Lab", "LabRefused"))
+    ctx.model("MC_MD3", "MC_MD3%s.cfg" % ("" if q else "_deep"), require_actions=("Ref", "ReRef", "Upd", "UpdRefused", "Lab", "LabRefused"))
     ctx.model("MC_MD3", "MC_MD3_live.cfg")
     rep = lambda ts: (lambda i: {"params": ts[i]["params"], "script": ts[i]["script"], "seed": ts[i]["seed"]})
     # every interleaving of the seven call kinds up to depth n on the real class
@@ -73,9 +73,13 @@ def run(ctx):
     for _ in range(ncfg):
         p = params(rng, small=True)
         seed = rng.randrange(10 ** 6)
-        work += [(p, list(script), seed) for script in itertools.product(KINDS, repeat=n)]
+        if q:
+            work += [(p, list(script), seed) for script in itertools.product(KINDS, repeat=n)]
+        else:       # depth 5 over the seven protocol calls, depth 4 with set_reference among them
+            work += [(p, list(script), seed) for script in itertools.product(KINDS[:7], repeat=n)]
+            work += [(p, list(script), seed) for script in itertools.product(KINDS, repeat=n - 1) if ("setref",) in script]
     ts = pmap(D.run, work)
-    ctx.validate("MD3", ts, "all interleavings of 7 call kinds, depth %d x %d configurations" % (n, ncfg), sabotage=D.sabotage,
+    ctx.validate("MD3", ts, "all interleavings of 8 call kinds (set_reference included), depth %d x %d configurations" % (n, ncfg), sabotage=D.sabotage,
                  replay=rep(ts), nontrivial=lambda t: any(e["state"] != "None" for e in t["ev"]) and any(e["raised"] != "None" for e in t["ev"]))
     # conformance B: every behaviour TLC enumerates for the MD3 specification, stepped through the real object
     from .. import tlc
